@@ -179,6 +179,7 @@ def c07(tier, seed):
             "contradictory_lists",
             "unknown_contest_named",
             "called_contest_without_any_vote",
+            "feed_row_with_a_missing_party_count",
         ]
     )
 
@@ -255,6 +256,8 @@ def bootstrap_client_traces(run, tier, seed, cfg, n_quick=24, n_thorough=240):
                 run.witness("classification_groups_with_set_aside_units")
             if val.get("empty_contest"):
                 run.witness("called_contest_without_any_vote")
+            if val.get("missing_count"):
+                run.witness("feed_row_with_a_missing_party_count")
             if val.get("fully_reported") and any(g["top"] and g["name"] in val["stop"] for g in val["groups"]):
                 run.witness("fully_reported_run_with_stopped_contest")
         else:
@@ -288,7 +291,7 @@ def c06(tier, seed):
     _validate_bootstrap(run, traces, "Trace_Bootstrap_C06.cfg")
     run.sample({"bounds_record": traces[-1]})
     bootstrap_client_traces(run, tier, seed, "Trace_Bootstrap_C06.cfg")
-    run.finish(require_witnesses=["rank_records", "bounds_records", "client_run", "district_office_run", "run_with_extrapolating_units", "run_with_presidential_correction", "classification_groups_with_set_aside_units", "B_2", "B_40"])
+    run.finish(require_witnesses=["rank_records", "bounds_records", "client_run", "district_office_run", "run_with_extrapolating_units", "run_with_presidential_correction", "classification_groups_with_set_aside_units", "feed_row_with_a_missing_party_count", "B_2", "B_40"])
 
 
 # ---------------------------------------------------------------------------------------------------------------
